@@ -216,6 +216,51 @@ def work_pretag(bins, seed, n):
     return dict(n=k, bad=bad)
 
 
+def work_submodule(bins, seed, idx, tmp):
+    """a super-project at its final tag whose only uncommitted change sits inside a checked-out submodule (`git status`: ` M lib`, `git describe --dirty`: -dirty)"""
+    import shutil
+    rng = random.Random("%s/sub%d" % (seed, idx))
+    home = os.path.join(tmp, "s%d" % idx)
+    path = os.path.join(home, "repo")
+    os.makedirs(home, exist_ok=True)
+    bad = []
+    n = 0
+    try:
+        repo = gitmodel.Repo(path, rng)
+        repo.commit()
+        repo.add_submodule()
+        if idx % 2:
+            repo.commit()
+        x, y, z = rng.choice([1, 2, 10]), rng.choice([0, 3]), rng.choice([0, 5])
+        repo.tag(("v" if idx % 3 else "") + "%d.%d.%d" % (x, y, z), annotated=bool(idx % 2))
+        env = core.base_env(bins, home=home)
+        for dirt in (None, "submodule_modified"):
+            if dirt:
+                repo.make_dirty(dirt)
+            for fmt in ("semver", "pep440"):
+                r = core.run_zerv(bins, ["flow", "-C", path, "--output-format", fmt], env=env)
+                n += 1
+                case = dict(kind="submodule", seed=seed, idx=idx, dirt=dirt, fmt=fmt)
+                lo, hi = "%d.%d.%d" % (x, y, z), "%d.%d.%d" % (x, y, z + 1)
+                if r["timeout"]:
+                    continue
+                if r["exit"] != 0:
+                    bad.append(("flow-failed-in-repo", "flow failed in a super-project with a submodule: %s" % r["err"][:200], case))
+                    continue
+                out = r["out"].rstrip("\n")
+                kv = key(fmt, out)
+                if dirt is None:
+                    if public(fmt, out) != lo:
+                        bad.append(("clean-tag-not-exact", "clean super-project at tag %s printed %r" % (lo, out), case))
+                elif kv is None or not (key(fmt, lo) < kv < key(fmt, hi)):
+                    bad.append(("out-of-bounds-in-history", "%s: a tracked file is modified inside the submodule (uncommitted change), flow printed %r; expected %s < V < %s" % (fmt, out, lo, hi), case))
+    except gitmodel.GitError as e:
+        raise core.Inconclusive("submodule scenario: %s" % e)
+    finally:
+        shutil.rmtree(home, ignore_errors=True)
+    return dict(n=n, bad=bad)
+
+
 def work_chain(bins, seed, idx, tmp):
     """real repositories: one or two final-release tags (possibly placed after a branch forked), commits on
     1-3 branches, merges in both directions; flow observed at every commit"""
@@ -267,7 +312,8 @@ def work_chain(bins, seed, idx, tmp):
             vset = [c for c in anc if repo.tags_at(c)]
             nearest = [c for c in vset if not any(c2 != c and c in repo.anc(c2) for c2 in vset)]
             at_tag = h in nearest
-            kind = rng.choice(["clean", "touched_same_content", "modified", "untracked"]) if not at_tag else rng.choice(["clean", "touched_same_content", "staged_new", "staged_modified"])
+            kind = (rng.choice(["clean", "touched_same_content", "modified", "untracked", "mode_change", "deleted"]) if not at_tag else
+                    rng.choice(["clean", "touched_same_content", "staged_new", "staged_modified", "modified", "mode_change", "deleted", "untracked"]))
             dirty = repo.make_dirty(kind)
             if nearest and not any(c in first_parent_anc(h) for c in nearest):
                 st["chain_tag_only_via_second_parent"] += 1
@@ -436,6 +482,10 @@ def run(ctx):
         ctx.distinct_extra += r["st"]["chain_observations"]
         allbad += r["bad"]
         ctx.sample(r["sample"], cap=5)
+    for r in core.pmap(work_submodule, [(ctx.bins, "%s/%d" % (ctx.prop, ctx.seed), i, ctx.tmp) for i in range(6 if quick else 24)]):
+        ctx.evaluations += r["n"]
+        ctx.count("submodule_observations", r["n"])
+        allbad += r["bad"]
     for sig, why, case in allbad:
         ctx.refute(sig, why, case)
     ctx.rule = ("%d random flow states on source none (final-release tags with numbers up to 2^32-2, pool and random branch names, dirty flags, rule sets, post "
@@ -454,7 +504,7 @@ def replay(ctx, doc):
         print("exit=%s out=%r err=%r" % (r["exit"], r["out"], r["err"][:300]))
         print(doc.get("what"))
         return 0
-    r = work_chain(ctx.bins, c["seed"], c["idx"], ctx.tmp)
+    r = work_submodule(ctx.bins, c["seed"], c["idx"], ctx.tmp) if c["kind"] == "submodule" else work_chain(ctx.bins, c["seed"], c["idx"], ctx.tmp)
     for b in r["bad"]:
         print(b[0], b[1])
     if r["bad"]:
